@@ -199,6 +199,8 @@ impl Engine for VmEngine {
             // known finding K2: == on a table that contains itself recurses without bound
             run("setvar($74,table),setprop(readvar($74),readvar($74),int(#0)),setglobal($67,eq(readvar($74),readvar($74)))", ""),
             // nested budget (F9): a sort whose key function loops; the whole run has one budget
+            // the same through a native function VALUE (CallFunction path instead of CallNative)
+            vec!["vm new".to_string(), "vm run mod([],[fn($6d61696e,[],[setvar($74,array([int(#3),int(#1),int(#2),int(#5),int(#4)])),setglobal($67,dyncall([readvar($74),closure([$6b6579,$76616c],[setvar($63,int(#0)),while(less(readvar($63),int(#20)),composite($5f,[setvar($63,add(readvar($63),int(#1)))])),return(readvar($76616c))])],nativefn($5f5f736f7274)))])],[]) budget=150".to_string(), "vm run mod([],[fn($6d61696e,[],[setvar($74,array([int(#3),int(#1),int(#2),int(#5),int(#4)])),setglobal($67,dyncall([closure([$70],[setvar($63,int(#0)),while(less(readvar($63),int(#200)),composite($5f,[setvar($63,add(readvar($63),int(#1)))])),return(readvar($70))]),int(#1)],nativefn($63616c6c6261636b)))])],[]) budget=150".to_string()],
             vec!["vm new".to_string(), "vm run mod([],[fn($6d61696e,[],[setvar($74,array([int(#3),int(#1),int(#2),int(#5),int(#4)])),setglobal($67,call($7374642e736f727465645f62795f6b6579,[closure([$6b6579,$76616c],[setvar($63,int(#0)),while(less(readvar($63),int(#20)),composite($5f,[setvar($63,add(readvar($63),int(#1)))])),return(readvar($76616c))]),readvar($74)]))])],[]) budget=150".to_string(), "vm run mod([],[fn($6d61696e,[],[setglobal($67,int(#1))])],[]) budget=0".to_string()],
         ]
     }
@@ -291,9 +293,13 @@ impl Engine for VmEngine {
                             let mut first = String::new();
                             let mut same = 0;
                             let mut last = String::new();
+                            let mut bal = 0;
                             for i in 0..n {
                                 vm.get_aux_mut().clear();
                                 let res = vm.run(&prog);
+                                if i == 0 {
+                                    bal = cao_lang::verif::value_stack(&vm.runtime_data).len();
+                                }
                                 let full = show_outcome(vm, &prog, &res);
                                 let o = if clear { full } else { obs_part(&full) };
                                 if i == 0 {
@@ -308,7 +314,7 @@ impl Engine for VmEngine {
                                     vm.clear();
                                 }
                             }
-                            format!("first={{{first}}} same={same}/{n}{last}")
+                            format!("first={{{first}}} bal={bal} same={same}/{n}{last}")
                         }
                     },
                 },
@@ -380,7 +386,9 @@ impl Engine for VmEngine {
                 let n = r.split(" same=").nth(1).and_then(|x| x.split(' ').next()).unwrap_or("");
                 let mut it = n.split('/');
                 let ok = it.next() == it.next();
-                if ok || (!clear && !r.starts_with("first={ok ")) { out.push(r.clone()) } else { out.push("every repetition gives the outcome of the first run".into()) }
+                // without clear the claim is about programs that leave the value stack balanced
+                let balanced = r.contains("} bal=0 ");
+                if ok || (!clear && (!r.starts_with("first={ok ") || !balanced)) { out.push(r.clone()) } else { out.push("every repetition gives the outcome of the first run".into()) }
             } else if o.starts_with("vm budcheck") && r.starts_with("A={") {
                 // C03: dispatches <= budget for both; if neither run timed out, the outcomes are equal
                 let a = r.split("A={").nth(1).and_then(|x| x.split("} B={").next()).unwrap_or("");
